@@ -234,6 +234,8 @@ impl <N: Numeric> Array<N> {
 
     fn apply_triangular<F>(&self, k: isize, compare: F) -> Result<Self, ArrayError>
         where F: Fn(isize, isize, isize) -> bool {
+        self.is_dim_unsupported(&[0, 1])?;
+        if self.is_empty()? { return Ok(self.clone()) }
         let last_dim = self.shape.len() - 1;
         let second_last_dim = self.shape.len() - 2;
         let chunk_size = self.shape[last_dim] * self.shape[second_last_dim];
